@@ -118,8 +118,9 @@ func (s *schemaSliceValidator) Validate(data interface{}) *Result {
 		if s.Items != nil && len(s.Items.Schemas) > 0 && !s.AdditionalItems.Allows {
 			result.AddErrors(arrayDoesNotAllowAdditionalItemsMsg())
 		}
-		if s.AdditionalItems.Schema != nil {
-			for i := itemsSize; i < size-itemsSize+1; i++ {
+		if s.AdditionalItems.Schema != nil && itemsSize > 0 {
+			// additionalItems only applies to the elements following a tuple
+			for i := itemsSize; i < size; i++ {
 				validator := newSchemaValidator(s.AdditionalItems.Schema, s.Root, fmt.Sprintf("%s.%d", s.Path, i), s.KnownFormats, s.Options)
 				result.mergeForSlice(val, i, validator.Validate(val.Index(i).Interface()))
 			}
